@@ -113,7 +113,9 @@ def main(tier):
         if tier == "thorough":
             # behaviours of 4 actions: there are millions (holding them all once cost 16 GB and the OOM killer the run);
             # TLC's simulator draws a seeded sample of them instead
-            b4 = emit_behaviours(chk, 4, simulate=300000, maxgens=1)
+            # (in simulation mode the emitting constraint fires for every successor TLC generates at the last step, not
+            # only for the one it follows: 8000 walks yield about 350 000 behaviours)
+            b4 = emit_behaviours(chk, 4, simulate=8000, maxgens=1)
             seen4 = set()
             for b in b4:
                 key = json.dumps(b["hist"], sort_keys=True)
